@@ -241,6 +241,18 @@ def root_arg_keep(t):
     return t0
 
 
+def structural(ctx):
+    """the structural clauses of C11, callable from the properties that assume it (C02, C03)"""
+    F = ctx.F
+    ks = [k for k in simd.kernels(F) if any('loadu_ps' in c.callee for c in k.calls())]
+    ctx.floor('R-SIMD', 'vector kernels', len(ks), 4)
+    for k in ks:
+        simd.analyse_kernel(ctx, k)
+    r_scalar(ctx)
+    r_dispatch(ctx)
+    r_forms(ctx)
+
+
 def run(ctx):
     ctx.explanation = EXPL
     ctx.trusted = ['rustc nightly MIR construction', 'core::arch intrinsics semantics (loadu/sub/mul/fmadd/add, hsum helper)', 'std_detect feature detection']
